@@ -1313,3 +1313,174 @@ func (s *Steer) DeriveVia(r *rand.Rand, start, target string, alphabet []rune) [
 	}
 	return out
 }
+
+// ---------- recursion through the left edge of alternatives ----------
+
+// Recursive builds grammars whose rules call each other in cycles: an alternative of a choice may BEGIN with a
+// reference to a rule that is still being expanded further up (legal as long as that rule consumed something on the
+// way down), rules are chained through their left edges (Y <- Z X), and every choice mixes such alternatives with
+// terminals of different first-set sizes. Any analysis that walks the rule graph depth-first and meets a rule that is
+// still "in progress" (the first-set analysis of -switch, the reference counting of -inline, the left-recursion
+// check) has to get these right; tree-shaped grammars never exercise that. Returns only well-formed grammars in
+// which every rule has a finite derivation.
+func Recursive(r *rand.Rand) *Grammar {
+	letters := []rune("abcdefghjkmpqwz")
+	for {
+		n := 4 + r.Intn(4)
+		names := []string{"R0"}
+		for i := 1; i <= n; i++ {
+			names = append(names, fmt.Sprintf("N%d", i))
+		}
+		ch := func() rune { return letters[r.Intn(len(letters))] }
+		term := func() *Expr {
+			switch r.Intn(7) {
+			case 0:
+				a := ch()
+				return Rng(a, a+rune(1+r.Intn(9)))
+			case 1:
+				return Cls(Item{ch(), ch()}.norm(), Item{'0', '0' + rune(r.Intn(10))})
+			case 2:
+				return &Expr{K: KLit, Text: []rune{ch(), ch()}}
+			default:
+				return &Expr{K: KLit, Text: []rune{ch()}}
+			}
+		}
+		anyRef := func() *Expr { return Ref(names[1+r.Intn(n)]) }
+		g := &Grammar{}
+		g.Rules = append(g.Rules, &Rule{Name: "R0", E: Seq(Ref("N1"), Un(KNot, Dot()))})
+		for i := 1; i <= n; i++ {
+			next := anyRef()
+			if i < n {
+				next = Ref(names[i+1]) // keeps every rule reachable
+			}
+			var e *Expr
+			switch pick(r, 3, 2, 4, 1) {
+			case 0: // consume, then call
+				kids := []*Expr{term(), next}
+				if r.Intn(2) == 0 {
+					kids = append(kids, anyRef())
+				}
+				if r.Intn(3) == 0 {
+					kids = append(kids, term())
+				}
+				e = Seq(kids...)
+			case 1: // chained through the left edge
+				if r.Intn(2) == 0 {
+					e = Seq(next, anyRef())
+				} else {
+					e = Seq(anyRef(), next)
+				}
+			case 2: // choice: alternatives beginning with a rule (possibly one in progress), and terminals
+				k := 2 + r.Intn(4)
+				var alts []*Expr
+				for j := 0; j < k; j++ {
+					switch r.Intn(5) {
+					case 0, 1:
+						alts = append(alts, Seq(anyRef(), term()))
+					case 2:
+						alts = append(alts, Seq(term(), anyRef()))
+					default:
+						alts = append(alts, term())
+					}
+				}
+				at := r.Intn(len(alts))
+				if r.Intn(2) == 0 {
+					alts[at] = Seq(next, term())
+				} else {
+					alts[at] = Seq(term(), next)
+				}
+				e = Alt(alts...)
+			default:
+				e = next
+			}
+			if i == n && e.K != KAlt {
+				e = Alt(e, term(), term())
+			}
+			g.Rules = append(g.Rules, &Rule{Name: names[i], E: e})
+		}
+		if !g.WellFormed() {
+			continue
+		}
+		st := NewSteer(g)
+		ok := true
+		for _, rl := range g.Rules {
+			if st.cost[rl.Name] >= 1<<20 || st.cost[rl.Name] > 60 {
+				ok = false
+			}
+		}
+		if !ok {
+			continue
+		}
+		g.Number()
+		return g
+	}
+}
+
+func (i Item) norm() Item {
+	if i.Lo > i.Hi {
+		return Item{i.Hi, i.Lo}
+	}
+	return i
+}
+
+// DeriveFree derives an input from start making up to `free` random choices along every path and the cheapest choice
+// after that, so that derivations of recursive grammars end (and are usually accepted).
+func (s *Steer) DeriveFree(r *rand.Rand, start string, free int, alphabet []rune) []rune {
+	var out []rune
+	budget := 3000
+	var walk func(e *Expr, free int)
+	walk = func(e *Expr, free int) {
+		budget--
+		if budget < 0 {
+			return
+		}
+		switch e.K {
+		case KSeq:
+			for _, k := range e.Kids {
+				walk(k, free)
+			}
+		case KAlt:
+			if free > 0 {
+				walk(e.Kids[r.Intn(len(e.Kids))], free-1)
+				return
+			}
+			best, bc := e.Kids[0], s.exprCost(e.Kids[0])
+			for _, k := range e.Kids[1:] {
+				if c := s.exprCost(k); c < bc {
+					best, bc = k, c
+				}
+			}
+			walk(best, 0)
+		case KQuery, KStar:
+			if free > 0 && r.Intn(2) == 0 {
+				walk(e.Kids[0], free-1)
+			}
+		case KPlus:
+			walk(e.Kids[0], free)
+			if free > 0 && r.Intn(2) == 0 {
+				walk(e.Kids[0], free-1)
+			}
+		case KCapture:
+			walk(e.Kids[0], free)
+		case KLit:
+			out = append(out, e.Text...)
+		case KClass:
+			if e.Neg {
+				out = append(out, alphabet[r.Intn(len(alphabet))])
+				return
+			}
+			it := e.Items[r.Intn(len(e.Items))]
+			out = append(out, it.Lo+rune(r.Intn(int(it.Hi-it.Lo)+1)))
+		case KDot:
+			out = append(out, alphabet[r.Intn(len(alphabet))])
+		case KRef:
+			if rr := s.g.Rule(e.Name); rr != nil {
+				walk(rr.E, free)
+			}
+		}
+	}
+	if rr := s.g.Rule(start); rr != nil {
+		walk(rr.E, free)
+	}
+	return out
+}
